@@ -453,8 +453,12 @@ func (e *Eng) loopMods(fr *Frame, body map[*ssa.BasicBlock]bool) (map[string]boo
 			e.curGen = gen
 			e.freshScope = body
 			e.instrMods(fr.fn, ins, m)
-			// ghost assignments attached to a site inside the loop
+			// ghost assignments attached to a site inside the loop, directly or inside helpers without a contract of
+			// their own that will be inlined there (the function's site clauses follow the code into them)
 			if fr.fspec != nil {
+				if c, ok := ins.(ssa.CallInstruction); ok {
+					e.ghostSitesIn(c.Common().StaticCallee(), fr.fspec, m, gen, 0)
+				}
 				kind, name := "", ""
 				switch x := ins.(type) {
 				case *ssa.Call:
@@ -482,4 +486,34 @@ func (e *Eng) loopMods(fr *Frame, body map[*ssa.BasicBlock]bool) (map[string]boo
 	e.curGen = saved
 	e.freshScope = savedScope
 	return m, gen
+}
+
+// ghostSitesIn: ghost variables assigned by site clauses of fs (without ordinal) at calls inside fn, a callee without a
+// contract of its own, and inside such callees of fn (bounded by the inlining depth).
+func (e *Eng) ghostSitesIn(fn *ssa.Function, fs *FuncSpec, m, gen map[string]bool, depth int) {
+	if fn == nil || len(fn.Blocks) == 0 || depth > 4 || e.spec.Funcs[fnKey(fn)] != nil {
+		return
+	}
+	if fn.Pkg != e.ld.ssaPkg && !(fn.Parent() != nil && fn.Parent().Pkg == e.ld.ssaPkg) {
+		return
+	}
+	for _, b := range fn.Blocks {
+		for _, ins := range b.Instrs {
+			c, ok := ins.(ssa.CallInstruction)
+			if !ok {
+				continue
+			}
+			name := calleeName(c.Common())
+			for _, s := range fs.Sites {
+				if s.SetGhost != "" && s.Kind == "call" && s.Callee == name && s.Ordinal == 0 {
+					// (over-approximation: also when the function has such sites of its own and the clause does not follow)
+					for _, r := range e.resolveRegionPattern(s.SetGhost) {
+						m[r] = true
+						gen[r] = true
+					}
+				}
+			}
+			e.ghostSitesIn(c.Common().StaticCallee(), fs, m, gen, depth+1)
+		}
+	}
 }
